@@ -556,6 +556,21 @@ def law_search(tb, impl, res, rng, tier, known, pool=None):
         L.count("cross-category-error")
         if impl.get(a, b, v) != "ERR:category":
             L.fail("units of different categories must not convert", {}, [(a, b, v)])
+    # ---- L8' an identifier that does not resolve is an error of `convert` too, on either side and
+    #      against ITSELF (no shortcut may answer before both identifiers are resolved)
+    if pool:
+        bad = [(s0, rr[s0].split("|")[0]) for s0 in unlisted if rr[s0].startswith("ERR:")][:400]
+        good = "m"
+        one_ = f2b(1.0)
+        impl.prefetch([(s0, s0, one_) for s0, _ in bad] + [(s0, good, one_) for s0, _ in bad] + [(good, s0, one_) for s0, _ in bad])
+        for s0, kind in bad:
+            for a, b in ((s0, s0), (s0, good), (good, s0)):
+                L.count("convert-unresolvable-error")
+                got = impl.get(a, b, one_)
+                want = "ERR:ambig" if kind.startswith("ERR:ambig") else "ERR:unknown"
+                if not got.startswith(want):
+                    L.fail("convert answered although an identifier does not resolve (it must report the error, not guess)",
+                           {"identifier": s0, "resolve": kind, "convert": got}, [(a, b, one_)])
     # ---- L6 prefix ratios: a prefixed name converts to its base name, and convert(1, prefixed, base) = base^k
     #      within 2 ulp (two roundings)
     pp = prefix_pairs(tb)
